@@ -514,9 +514,9 @@ PLAIN = ["a", "b", "c", "d", "e"]
 UNDER = ["_x", "_y", "_z"]
 ALIASES = ["A1", "k9", "al", "Zed", "q"]
 INT_OK = [0, 1, 7, 12, "3", "10", "0"]
-STR_OK = ["x", "abc", "Q", 5, 0, "12"]
+STR_OK = ["x", "abc", "Q", 5, 0, "12", ""]
 BAD_INT = ["x", "1.5x", "abc", "-"]
-ANY = [0, 3, "x", "7", "Yz"]
+ANY = [0, 3, "x", "7", "Yz", ""]
 
 
 def gen_value(rng, ty, bad=0.06):
@@ -625,7 +625,7 @@ def gen_call(rng, params, opts, near_miss=0.15):
     if vp and npos == len(pos) and rng.random() < 0.6:
         args += [gen_value(rng, vp.get("ann")) for _ in range(rng.randint(1, 3))]
     elif miss and not vp and rng.random() < 0.3:
-        args.append(rng.choice(ANY))
+        args.append(rng.choice([0, 3, "7"]))      # may land in any slot: readable by every annotation
     kwargs = []
     for p in pos[npos:] + kos:
         if p["kind"] == "po":
@@ -661,6 +661,11 @@ def gen_call(rng, params, opts, near_miss=0.15):
                 kwargs = [kv for kv in kwargs if kv[0] not in accepted_names(p, opts)]
                 kwargs += [[a, v], [b, v if rng.random() < 0.5 else gen_value(rng, p.get("ann"))]]
                 break
+    if miss:
+        # in a near-miss a value may land on another parameter than the one it was drawn for; '' is the one value whose
+        # int reading utype and the oracle disagree on (C01's subject), keep it out of those calls
+        args = ["Q" if a == "" else a for a in args]
+        kwargs = [[k, "Q" if v == "" else v] for k, v in kwargs]
     rng.shuffle(kwargs)
     seen, kw2 = set(), []
     for k, v in kwargs:
@@ -752,31 +757,94 @@ def gen_focus_case(rng):
         for k in ks:
             if k not in seen:
                 seen.add(k)
-                kwargs.append([k, enc(gen_value(rng, vkann))])
+                # a key that may reach the int field b carries an int-readable value
+                hits_b = k.lower() in ("b", "bee")
+                kwargs.append([k, enc(gen_value(rng, "int" if hits_b else vkann))])
     ctx = rng.choice(["func"] * 4 + ["inst", "static", "klass"])
     return {"kind": "bind", "params": params, "ctx": ctx, "wrapper": rng.choice(["sync"] * 4 + ["coro", "gen"]),
             "eager": rng.random() < 0.3, "options": opts, "retval": {"v": 1}, "args": args, "kwargs": kwargs}
 
 
+# values for generator scripts, per declared type: falsy ones (0, "") in every role — a sent 0 / "" is a sent value,
+# not `next()`; "" is not offered where an int is declared (utype reads it as 0, the oracle has no int reading for it)
+GEN_POOL = {"int": [0, 1, "2", "30", 4, "0", 0], "str": ["", 0, "x", 5, "0", ""], None: [0, "", 1, "x", "2", 0]}
+GEN_BAD = {"int": ["bad", "x"], "str": [], None: []}
+
+
+def gen_gv(rng, ty, bad=0.08):
+    if GEN_BAD[ty] and rng.random() < bad:
+        return rng.choice(GEN_BAD[ty])
+    return rng.choice(GEN_POOL[ty])
+
+
+def effective_types(g, wrapper):
+    annot = g.get("annot", "generator")
+    if annot == "none":
+        return None, None, None
+    if annot == "iterator":
+        return g.get("yt"), None, None
+    return g.get("yt"), g.get("st"), (g.get("rt") if wrapper == "gen" else None)
+
+
 def gen_generator_case(rng):
     wrapper = rng.choice(["gen", "agen"])
     nsteps = rng.randint(1, 4)
-    steps = []
-    for i in range(nsteps):
-        if i == 0 or rng.random() < 0.4:
-            steps.append({"v": rng.choice([1, "2", 3, "x", "10"])})
-        else:
-            steps.append({"echo": rng.choice([0, "8"])})
-    g = {"steps": steps, "annot": rng.choice(["generator"] * 4 + ["iterator", "none"]),
+    g = {"annot": rng.choice(["generator"] * 4 + ["iterator", "none"]),
          "yt": rng.choice(["int", "int", "str", None]), "st": rng.choice(["int", "int", "str", None]),
          "rt": rng.choice(["int", "str", None])}
+    yt, st, rt = effective_types(g, wrapper)
+    # an echoed value is converted twice (as a send, then as a yield): keep it readable by both types
+    both = [v for v in GEN_POOL[st] if conv(st, v)[0] and conv(yt, conv(st, v)[1])[0]]
+    steps = []
+    for i in range(nsteps):
+        if i == 0 or rng.random() < 0.35:
+            steps.append({"v": gen_gv(rng, yt)})
+        else:
+            steps.append({"echo": rng.choice([v for v in GEN_POOL[yt] if conv(yt, v)[0]])})
+    g["steps"] = steps
     if wrapper == "gen" and rng.random() < 0.7:
-        g["ret"] = rng.choice([{"v": 4}, {"v": "5"}, {"v": "x"}, {"echo": "6"}, {"v": None}])
+        g["ret"] = rng.choice([{"v": gen_gv(rng, rt)}, {"v": gen_gv(rng, rt)},
+                               {"echo": rng.choice([v for v in GEN_POOL[rt] if conv(rt, v)[0]])}]
+                              + ([{"v": None}] if rt is None else []))   # "returns None" only where no type is declared
+    if "echo" in g.get("ret", {}):
+        both = [v for v in both if conv(rt, conv(st, v)[1])[0]]     # the last sent value may be returned, too
     ns = rng.randint(0, nsteps + 1)
-    g["sends"] = [None if rng.random() < 0.35 else enc(rng.choice([1, "2", "30", 4, "bad"] if rng.random() < 0.9 else ["bad"]))
-                  for _ in range(ns)]
+    sends = []
+    for _ in range(ns):
+        r = rng.random()
+        if r < 0.3:
+            sends.append(None)
+        elif r < 0.9 and both:
+            sends.append(enc(rng.choice(both)))
+        else:
+            v = gen_gv(rng, st, bad=0.5)
+            # either it fails as a send, or it must survive being echoed as a yield
+            sends.append(enc(v if (not conv(st, v)[0] or v in both or not both) else rng.choice(both)))
+    g["sends"] = sends
     return {"kind": "gen", "params": [], "ctx": "func", "wrapper": wrapper, "eager": rng.random() < 0.5,
             "options": {}, "args": [], "kwargs": [], "gen": g}
+
+
+def exhaustive_gen_cases(maxlen=3):
+    """every send stream of length <= maxlen over {next(), 0, a falsy/odd second value, 1} in every position, for the four
+    wrappers (sync/async x eager/lazy) and each send type; the raw generator echoes what it is sent and returns it"""
+    import itertools
+    out = []
+    for st, alphabet in (("int", [None, 0, "0", 1]), ("str", [None, 0, "", "x"]), (None, [None, 0, "", 1])):
+        for yt in ((st, None) if st else (None,)):
+            # the echo is converted as a yield too: declare a yield type only when it equals the send type
+            for wrapper in ("gen", "agen"):
+                for eager in (False, True):
+                    for n in range(0, maxlen + 1):
+                        for seq in itertools.product(alphabet, repeat=n):
+                            g = {"annot": "generator", "yt": yt, "st": st, "rt": st,
+                                 "steps": [{"v": 7 if st != "str" else "s"}] + [{"echo": 9 if st != "str" else "e"}] * 3,
+                                 "sends": [None if x is None else enc(x) for x in seq]}
+                            if wrapper == "gen":
+                                g["ret"] = {"echo": 5 if st != "str" else "r"}
+                            out.append({"kind": "gen", "params": [], "ctx": "func", "wrapper": wrapper, "eager": eager,
+                                        "options": {}, "args": [], "kwargs": [], "gen": g})
+    return out
 
 
 
@@ -1006,7 +1074,8 @@ class C08(Check):
             "case_insensitive); private `_x` names) in 9 class contexts x 4 wrapper kinds x eager/lazy x 11 Options, each with a "
             "call built from the signature (every positional/keyword split, accepted spellings, *args/**kwargs extras, 15% "
             "near-misses), plus generator scripts (1-4 yields, echoing sends) with Generator/Iterator annotations and send "
-            "lists; thorough adds every call of every 1-3 parameter signature over a reduced alphabet.  non-trivial = Python "
+            "lists whose values include the falsy 0 and '' in every role, plus every send stream of length <= 3 (4 in thorough) "
+            "over {next(), 0, '0' / '', 1 / 'x'} for the four wrappers (sync/async x eager/lazy) and each send type; thorough adds every call of every 1-3 parameter signature over a reduced alphabet.  non-trivial = Python "
             "binds the call, the signature has a parameter and the call passes an argument or a default is filled "
             "(generators: a typed or sent value); distinct by the whole case")
     assumptions = ["value universe of the correspondence run: small ints, digit / non-digit strings; annotations int and str "
@@ -1015,6 +1084,8 @@ class C08(Check):
 
     def cases(self, tier, rng, n):
         out = []
+        if tier != "search":
+            out += exhaustive_gen_cases(3 if tier == "quick" else 4)
         if tier == "thorough":
             out += exhaustive_cases()
         for _ in range(n):
@@ -1024,7 +1095,8 @@ class C08(Check):
 
     def model_line(self, case):
         if case["kind"] == "gen":
-            return {"kind": "gen", "wrapper": case["wrapper"], "gen": case["gen"], "legacy": bool(case.get("legacy"))}
+            return {"kind": "gen", "wrapper": case["wrapper"], "gen": case["gen"], "legacy": bool(case.get("legacy")),
+                    "eager": bool(case.get("eager"))}
         ctx = case.get("ctx", "func")
         bound = FIRST[ctx] is not None
         line = {"kind": "bind", "params": full_params(case), "ctx": CTX_FLAGS[ctx], "options": case.get("options") or {},
